@@ -376,6 +376,71 @@ def rw_spawn_calls(text, log):
     return text
 
 
+META_CALLS = ('metadata', 'symlink_metadata', 'file_type')
+
+
+def _receiver_is_metadata(st, i, body_open):
+    """st[i] is the method name of `RECV.is_dir()`: does RECV denote a Metadata / FileType value?  Decided syntactically:
+    RECV ends in a `metadata()` / `symlink_metadata()` / `file_type()` call (optionally followed by `?`), or RECV is a local variable
+    whose `let` initialiser ends in such a call or whose declared type mentions Metadata / FileType."""
+    j = i - 2          # token before the `.`
+    if j < 0:
+        return False
+    if st[j][1] == '?':
+        j -= 1
+    if st[j][1] == ')':
+        # find the call name
+        d = 0
+        k = j
+        while k >= 0:
+            if st[k][1] in (')', ']'):
+                d += 1
+            elif st[k][1] in ('(', '['):
+                d -= 1
+                if d == 0:
+                    break
+            k -= 1
+        return k >= 1 and st[k - 1][1] in META_CALLS
+    if st[j][0] == 'ident' and st[j - 1][1] not in ('.', '::'):
+        name = st[j][1]
+        # nearest preceding `let [mut] name [: T] = INIT ;`
+        k = j - 1
+        while k > body_open:
+            if st[k][1] == 'let' and (st[k + 1][1] == name or (st[k + 1][1] == 'mut' and st[k + 2][1] == name)):
+                e = k
+                d = 0
+                while e < j and not (st[e][1] == ';' and d == 0):
+                    if st[e][1] in ('(', '[', '{'):
+                        d += 1
+                    elif st[e][1] in (')', ']', '}'):
+                        d -= 1
+                    e += 1
+                words = [x[1] for x in st[k:e]]
+                if 'Metadata' in words or 'FileType' in words:
+                    return True
+                # initialiser ends in a metadata call (possibly `?`)
+                w = [x for x in words if x not in ('?',)]
+                for c in META_CALLS:
+                    if len(w) >= 3 and w[-3:] == [c, '(', ')']:
+                        return True
+                return False
+            k -= 1
+    return False
+
+
+def rw_closure_underscore(text, log):
+    """R15 (automatic): closure parameter `|_|` -> `|_e|` (Verus rejects `_` closure parameters)"""
+    st = rtok.sig(rtok.lex(text))
+    spans = []
+    for i in range(len(st) - 2):
+        if st[i][1] == '|' and st[i + 1][1] == '_' and st[i + 2][1] == '|':
+            spans.append((st[i + 1][2], st[i + 1][3], '_e'))
+    if spans:
+        text = _replace_spans(text, spans)
+        log.append('R15 %d closure parameter(s) `|_|` -> `|_e|`' % len(spans))
+    return text
+
+
 def rw_map(text, log):
     """R16: X.map(|v| E)  ->  match X { Ok(v) => Ok(E), Err(e__) => Err(e__) }   (Result::map; std's definition.  A closure without a
     written specification gives Verus no fact about its result.)"""
@@ -845,6 +910,7 @@ def build_fn(fs, repo, effectful, table_keys, canary=False):
             raise specmod.SpecError('%s: unknown rewrite %s' % (origin, kind))
 
     text = rw_drop_inner_use(text, log)
+    text = rw_closure_underscore(text, log)
     text = rw_loop_break_head(text, log)
     text, r12 = rw_for_continue(text, log)
     for n, (inv_t, dec_t) in r12.items():
@@ -1088,6 +1154,9 @@ def build_fn(fs, repo, effectful, table_keys, canary=False):
             if not hit and '::' in key and not key.startswith('.'):
                 # `libfs::foo(` style paths: also try the bare name when declared with a `*::` wildcard
                 hit = ('*::' + st[i][1]) in eff
+            if hit and key in ('.is_dir', '.is_file', '.is_symlink') and _receiver_is_metadata(st, i, body_open):
+                # the same method names exist on std::fs::Metadata / FileType (pure accessors of a snapshot, no world token)
+                hit = False
             if hit:
                 close = rtok.match_close(st, i + 1)
                 inner = st[i + 2:close]
